@@ -352,6 +352,20 @@ def monitor(case, obs):
                 raw.append(("C02", "differ-but-zero:" + case["kind"], f"different {case['kind']} documents but cost 0"))
             if de != obs["eq"] and not case["kind"] == "plist":
                 raw.append(("C02", "node-eq-vs-data-eq:" + case["kind"], f"tree equality {obs['eq']} but documents are {'equal' if de else 'different'}"))
+    # ---- C10 on XML attributes: the dictionary strategy reaches every element's attribute mapping
+    if case["kind"] == "xml":
+        ake = case.get("opts", {}).get("allow_key_edits", True)
+        amk = case.get("opts", {}).get("auto_match_keys", True)
+
+        def rec(node, path="/"):
+            kind, subs = node[0], node[4]
+            if not ake and kind == "MultiSetEdit":
+                raw.append(("C10", "none-strategy-multiset:xml", f"dict strategy none, but attributes at {path} are compared with key edits (MultiSetEdit)"))
+            if not ake and kind == "KeyValuePairEdit" and subs and isinstance(subs[0][3], int) and subs[0][3] > 0:
+                raw.append(("C10", "none-cross-key:xml", f"dict strategy none, but two attributes with different names are paired at {path}"))
+            for i, s in enumerate(subs):
+                rec(s, path + str(i) + "/")
+        rec(obs["script"])
     return [{"prop": p, "key": k, "what": w} for p, k, w in raw]
 
 
